@@ -33,6 +33,24 @@ thread_local! {
     static TRACE: Cell<u64> = const { Cell::new(0xcbf2_9ce4_8422_2325) };
 }
 
+thread_local! {
+    static REENTER_GET: Cell<bool> = const { Cell::new(false) };
+    static IN_NESTED: Cell<bool> = const { Cell::new(false) };
+}
+
+/// When on, every `get` on this thread first calls back into the library (a nested evaluation on the
+/// node itself) and checks what comes back: user code behind the trait is entitled to do that.
+pub fn set_reenter_get(on: bool) {
+    REENTER_GET.with(|c| c.set(on));
+}
+
+struct NestedGuard;
+impl Drop for NestedGuard {
+    fn drop(&mut self) {
+        IN_NESTED.with(|c| c.set(false));
+    }
+}
+
 pub fn set_personality(p: Personality) {
     PERS.with(|c| c.set(p.0));
 }
@@ -102,6 +120,22 @@ impl<const P: usize> Sim<P> {
             Value::Array(a) => Sim::Arr(a.iter().map(Sim::from_value).collect()),
             Value::Object(o) => Sim::Obj(o.iter().map(|(k, v)| (k.clone(), Sim::from_value(v))).collect()),
         }
+    }
+    /// The same view with every object's members listed in a pseudo-random order of its own (equal
+    /// objects at different positions get different orders): the trait does not promise an order.
+    pub fn from_value_shuffled(v: &Value, seed: u64) -> Sim<P> {
+        fn build<const P: usize>(v: &Value, rng: &mut crate::rng::Rng) -> Sim<P> {
+            match v {
+                Value::Array(a) => Sim::Arr(a.iter().map(|x| build(x, rng)).collect()),
+                Value::Object(o) => {
+                    let mut members: Vec<(String, Sim<P>)> = o.iter().map(|(k, x)| (k.clone(), build(x, rng))).collect();
+                    rng.shuffle(&mut members);
+                    Sim::Obj(members)
+                }
+                other => Sim::from_value(other),
+            }
+        }
+        build(v, &mut crate::rng::Rng::new(seed))
     }
     /// Harness-side conversion: neither logged nor a schedule point.
     pub fn to_value(&self) -> Value {
@@ -218,6 +252,27 @@ impl<const P: usize> From<Vec<Sim<P>>> for Sim<P> {
 impl<const P: usize> Queryable for Sim<P> {
     fn get(&self, key: &str) -> Option<&Self> {
         seam(0);
+        if REENTER_GET.with(|c| c.get()) && !IN_NESTED.with(|c| c.get()) {
+            IN_NESTED.with(|c| c.set(true));
+            let _g = NestedGuard;
+            // a nested evaluation from inside an accessor; its answer is known to the stub
+            let kids = self.children();
+            // by name when the first member has a plain name (a nested name selector), else by wildcard
+            let plain = kids.iter().find_map(|(st, _)| match st {
+                // ASCII letters, digits and '_' only: the parser trims Unicode blank space around a
+                // shorthand name, so a name like U+2028 is not reachable by shorthand at all
+                crate::npath::Step::Name(n) if !n.is_empty() && n.chars().all(|c| c.is_ascii_alphanumeric() || c == '_') && !n.chars().next().unwrap().is_ascii_digit() => Some(n.clone()),
+                _ => None,
+            });
+            let (q, want): (String, Vec<String>) = match plain {
+                Some(n) => (format!("$.{}", n), vec![crate::npath::render(&[crate::npath::Step::Name(n)])]),
+                None => ("$.*".to_string(), kids.into_iter().map(|(st, _)| crate::npath::render(&[st])).collect()),
+            };
+            let got = self.query_only_path(&q).unwrap_or_else(|_| vec!["<err>".into()]);
+            if got != want {
+                panic!("nested evaluation of {} from inside get() gave {:?}, expected {:?}", q, got, want);
+            }
+        }
         // the documented rule: the implementation strips the enclosing quotes
         let b = key.as_bytes();
         let key = if b.len() >= 2 && ((b[0] == b'\'' && b[b.len() - 1] == b'\'') || (b[0] == b'"' && b[b.len() - 1] == b'"')) {
